@@ -34,6 +34,7 @@ from . import core
 from .core import natlit
 from . import jugrun
 from . import fakeredis
+from . import storefaults
 import jug
 import jug.jug
 import jug.task
@@ -743,43 +744,11 @@ class PlainOptions:
 
 
 # ---------------------------------------------------------------------------- one jugfile: base state
-class Killed(BaseException):
-    """the process running `jug pack` dies (not an Exception: no handler of jug may swallow it)"""
-
-
-@contextlib.contextmanager
-def die_at_unlink(jd, n):
-    """The process dies at its (n+1)-th unlink of a result file of the jug directory jd (lock and temp files do
-    not count): update_pack() has then renamed the new pack into place and removed n of the files it replaces."""
-    real = os.unlink
-    done = [0]
-    skip = (os.path.join(jd, 'locks') + os.sep, os.path.join(jd, 'tempfiles') + os.sep, os.path.join(jd, 'packs') + os.sep)
-
-    def unlink(p, *a, **k):
-        sp = os.fspath(p)
-        if isinstance(sp, bytes):
-            sp = os.fsdecode(sp)
-        if sp.startswith(jd + os.sep) and not sp.startswith(skip):
-            if done[0] >= n:
-                raise Killed()
-            done[0] += 1
-        return real(p, *a, **k)
-    os.unlink = unlink
-    try:
-        yield
-    finally:
-        os.unlink = real
-
-
 def real_pack(env, how):
     """`jug pack` on a file store: the real update_pack(), run to completion or killed (how = {'mode', 'unlinks'})"""
     s = env.open()
     if how['mode'] == 'killed':
-        try:
-            with die_at_unlink(env.jd, how['unlinks']):
-                s.update_pack()
-        except Killed:
-            pass
+        storefaults.killed_pack(s, env.jd, how['unlinks'])
     else:
         s.update_pack()
 
